@@ -1,4 +1,5 @@
 import QuaiVerif.Model.Etx
+import QuaiVerif.Model.Value
 /- Line-protocol front end of the ETX origin model (area `evm`). -/
 namespace QuaiVerif.Etx
 
@@ -34,6 +35,25 @@ partial def parseActs : List String → List Act → Option (List Act × Bool ×
       | none => none
     else none
 
+/-- value trees: `e<v>`, `x<beneficiary>`, `(c<value>@<addr>` `(o<value>@<addr>` `(d@<addr>` `(s@<addr>` … `)r` | `)c` -/
+partial def parseItems : List String → List Value.Item → Option (List Value.Item × Bool × List String)
+  | [], _ => none
+  | ")r" :: rest, acc => some (acc.reverse, true, rest)
+  | ")c" :: rest, acc => some (acc.reverse, false, rest)
+  | w :: rest, acc =>
+    if w.startsWith "e" then (w.drop 1).toString.toNat?.bind fun v => parseItems rest (.emit v :: acc)
+    else if w.startsWith "x" then (w.drop 1).toString.toNat?.bind fun b => parseItems rest (.sd b :: acc)
+    else if w.startsWith "(" then
+      match ((w.drop 2).toString.splitOn "@") with
+      | [v, a] =>
+        let kind : Option Value.CallKind := match (w.drop 1).toString.take 1 |>.toString with
+          | "c" => some .call | "o" => some .callcode | "d" => some .delegate | "s" => some .static | _ => none
+        match kind, (if v.isEmpty then some 0 else v.toNat?), a.toNat?, parseItems rest [] with
+        | some k, some v, some a, some (body, rv, rest') => parseItems rest' (.sub k v a body rv :: acc)
+        | _, _, _, _ => none
+      | _ => none
+    else none
+
 def step (u : Unit) (ws : List String) : Unit × String :=
   match ws with
   | ["newcase"] => (u, "ok")
@@ -58,6 +78,22 @@ def step (u : Unit) (ws : List String) : Unit × String :=
         let l := runAct [] (.frame body rv)
         toString l.length ++ String.join (l.map fun v => " " ++ toString v)
       | _ => "bad-op")
+  | "vtree" :: rest =>
+    (u, match kvNat rest "refund", kvBool rest "once", (kv rest "bal").map (fun b => (b.splitOn ",").filterMap String.toNat?) with
+      | some rf, some once, some bals =>
+        let toks := rest.dropWhile (fun w => w != "(c0@1")
+        match toks with
+        | _ :: body => match parseItems body [] with
+          | some (items, rv, []) =>
+            let bal0 : Nat → Nat := fun a => bals.getD (a - 1) 0
+            let s0 : Value.St := { bal := bal0, etxs := [], suicided := fun _ => false, minted := 0, burned := 0 }
+            let (s1, r) := Value.execItems { refund := rf, refundOnce := once } 1 false s0 items
+            let s := if r == .fail || (rv && r == .ok) then s0 else s1
+            "bal=" ++ String.intercalate "," ((List.range bals.length).map fun i => toString (s.bal (i + 1))) ++
+              " etxs=" ++ String.intercalate "," (s.etxs.map fun (a, v) => s!"{a}:{v}")
+          | _ => "bad-op"
+        | [] => "bad-op"
+      | _, _, _ => "bad-op")
   | _ => (u, "bad-op")
 
 end QuaiVerif.Etx
